@@ -113,13 +113,29 @@ def signature(ev, exec_lines, idx, r=None):
         ids = {a[0] for a in ev.get('atoms', []) if isinstance(a, list) and a}
         delayed = set()
         for ln in before:
-            if '"e":"x_dont_' in ln:
+            if '"e":"x_dont_start"' in ln:      # (a delayed start: what the client asked to keep later)
                 try:
                     delayed |= {r[0] for r in json.loads(ln).get('req', [])}
                 except ValueError:
                     pass
-        if ctx == 'after-failure' and ids & delayed:
-            ctx += ':delayed'
+        if ctx == 'after-failure':
+            # the history of the open finding: after a failure an atom that had not started (and was never delayed) is planned
+            # before the current time
+            started, past = set(), set()
+            for ln in before + [exec_lines[idx]]:
+                if '"e":"x_start"' in ln:
+                    started |= {a[0] for a in json.loads(ln).get('atoms', [])}
+                elif '"e":"x_plan"' in ln:
+                    j = json.loads(ln)
+                    t = j['t']
+                    for a in j['atoms']:
+                        sn, sd = a['s'][0]
+                        if a['id'] not in started and sd != 0 and sn * t[1] < t[0] * sd:
+                            past.add(a['id'])
+            if past - delayed:
+                ctx += ':unstarted-atom-planned-in-the-past'
+            if (ids | past) & delayed:
+                ctx += ':delayed'
         return 'exec:%s:%s:%s' % (ev['e'], contract, ctx)
     fam = re.sub(r'[_\d]+$', '', ev.get('name', '?'))
     return 'plan:%s:%s:%s' % (ev.get('e', '?'), contract, fam)
